@@ -21,6 +21,22 @@
    (blocks2 (rho K M) T ...) as blocks, after relabelling every column c to K*c + M*(c/4) (strictly
                             monotone, 0 -> 0; used to exercise columns_only_compared).
 
+   (parse PROG)             a decorated layout tree (Layout.lprog: the syntax tree with every layout choice
+                            explicit). The oracle renders it (Layout.r_prog) and parses the tokens.
+                            -> "PARSED same=<true|false> <tree>" (same: the tree equals the erasure
+                               Layout.er_prog of the decorated tree), "REJECT", "FUEL".
+     PROG   ::= (prog INNER (root BL COL STMT) ...)        INNER: column of all inner tokens
+     STMT   ::= (let X same EXPR) | (let X (next BL COL) EXPR) | (letfn F P (PS ...) BODY) | (expr EXPR)
+     EXPR   ::= (t TERM) | (op ATOM ((COL ATOM) ...) BRK O EXPR)          BRK ::= same | (next BL COL)
+     ATOM   ::= (a N) | (s N) | (lam (PS ...) BODY BRK)
+     TERM   ::= (app ATOM (COL ATOM) ...) | (if1 SX SX SX) | (if SX BL BLOCK IFREST) | (match SX BL ARM ...)
+     IFREST ::= (else BL COL BODY) | (elif BL COL SX BL BLOCK IFREST)
+     BODY   ::= (inline BLOCK) | (next BL BLOCK)
+     BLOCK  ::= (block COL STMT (BL COL STMT) ...)
+     ARM    ::= (arm COL PAT BODY BL)                      PAT ::= (case N) | (case N V) | default
+     SX     ::= (sx (A L ...) (O A L ...) ...)             one-line expression: application (op application)...
+     BL = number of extra EOL tokens (blank / comment lines), COL = column, N X F P V O A L = numbers.
+
    <tree>  ::= (ROOT ...)
    ROOT    ::= (rlet STMT) | (rtype TOKS TOKS ...) | (rother TOK ...)
    STMT    ::= (let TOKS EXPR) | (letfn TOKS BLOCK) | (expr EXPR)
@@ -94,6 +110,76 @@ let s_root = function
   | RType (h, cs) -> "(rtype " ^ s_toks h ^ " " ^ String.concat " " (List.map s_toks cs) ^ ")"
   | ROther l -> "(rother " ^ String.concat " " (List.map s_tok l) ^ ")"
 
+(* ---- decorated trees *)
+let nat_of s = nat_of_int (int_of s)
+let brk_of = function
+  | A "same" -> None
+  | L [A "next"; bl; c] -> Some (nat_of bl, nat_of c)
+  | _ -> raise (Parse_error "brk")
+let sxt_of = function
+  | a :: l -> (nat_of a, List.map nat_of l)
+  | _ -> raise (Parse_error "sxt")
+let sx_of = function
+  | L (A "sx" :: L first :: rest) ->
+    (sxt_of first, List.map (function L (o :: t) -> (nat_of o, sxt_of t) | _ -> raise (Parse_error "sx op")) rest)
+  | _ -> raise (Parse_error "sx")
+let pat_of = function
+  | A "default" -> PDef
+  | L [A "case"; n] -> PCase (nat_of n, None)
+  | L [A "case"; n; v] -> PCase (nat_of n, Some (nat_of v))
+  | _ -> raise (Parse_error "pat")
+let rec atom_of = function
+  | L [A "a"; n] -> LA (nat_of n)
+  | L [A "s"; n] -> LS (nat_of n)
+  | L [A "lam"; L ps; b; cl] -> LLam (List.map nat_of ps, body_of b, brk_of cl)
+  | _ -> raise (Parse_error "atom")
+and atoms_of = function
+  | [] -> ANil
+  | L [c; a] :: r -> ACons (nat_of c, atom_of a, atoms_of r)
+  | _ -> raise (Parse_error "atoms")
+and term_of = function
+  | L (A "app" :: a :: l) -> LApp (atom_of a, atoms_of l)
+  | L [A "if1"; c; t; e] -> LIf1 (sx_of c, sx_of t, sx_of e)
+  | L [A "if"; c; bl; t; r] -> LIf (sx_of c, nat_of bl, block_of t, ifrest_of r)
+  | L (A "match" :: tg :: bl :: arms) -> LMatch (sx_of tg, nat_of bl, arms_of arms)
+  | _ -> raise (Parse_error "term")
+and ifrest_of = function
+  | L [A "else"; bl; c; b] -> IElse (nat_of bl, nat_of c, body_of b)
+  | L [A "elif"; bl; c; cd; b1; t; r] -> IElif (nat_of bl, nat_of c, sx_of cd, nat_of b1, block_of t, ifrest_of r)
+  | _ -> raise (Parse_error "ifrest")
+and body_of = function
+  | L [A "inline"; b] -> BInline (block_of b)
+  | L [A "next"; bl; b] -> BNext (nat_of bl, block_of b)
+  | _ -> raise (Parse_error "body")
+and expr_of = function
+  | L [A "t"; t] -> LT (term_of t)
+  | L [A "op"; a; L l; brk; o; e] -> LOp (atom_of a, atoms_of l, brk_of brk, nat_of o, expr_of e)
+  | _ -> raise (Parse_error "expr")
+and stmt_of = function
+  | L [A "let"; x; nl; e] -> LLet (nat_of x, brk_of nl, expr_of e)
+  | L [A "letfn"; f; p; L ps; b] -> LLetFn (nat_of f, nat_of p, List.map nat_of ps, body_of b)
+  | L [A "expr"; e] -> LExpr (expr_of e)
+  | _ -> raise (Parse_error "stmt")
+and block_of = function
+  | L (A "block" :: c :: s :: rest) -> LB (nat_of c, stmt_of s, rest_of rest)
+  | _ -> raise (Parse_error "block")
+and rest_of = function
+  | [] -> LNil
+  | L [bl; c; s] :: r -> LCons (nat_of bl, nat_of c, stmt_of s, rest_of r)
+  | _ -> raise (Parse_error "rest")
+and arms_of = function
+  | [L [A "arm"; c; p; b; _]] -> MLast (nat_of c, pat_of p, body_of b)
+  | L [A "arm"; c; p; b; bl] :: r -> MCons (nat_of c, pat_of p, body_of b, nat_of bl, arms_of r)
+  | _ -> raise (Parse_error "arms")
+let prog_of = function
+  | L (A "prog" :: inner :: roots) ->
+    (nat_of inner, List.map (function
+         | L [A "root"; bl; c; s] -> ((nat_of bl, nat_of c), stmt_of s)
+         | _ -> raise (Parse_error "root")) roots)
+  | _ -> raise (Parse_error "prog")
+
+let s_roots rs = "(" ^ String.concat " " (List.map s_root rs) ^ ")"
+
 let answer ts =
   match parse_blocks (fuel_for ts) ts with
   | Ok rs -> "TREE (" ^ String.concat " " (List.map s_root rs) ^ ")"
@@ -104,6 +190,13 @@ let () = Registry.register "C06" (function
     | L (A "cols" :: toks) ->
       let cs = tkz_cols (List.map rtok_of toks) in
       "COLS " ^ String.concat " " (List.map (fun z -> string_of_int (int_of_z z)) cs)
+    | L [A "parse"; p] ->
+      let (inner, prog) = prog_of p in
+      let ts = r_prog inner prog in
+      (match parse_blocks (fuel_for ts) ts with
+       | Ok rs -> "PARSED same=" ^ string_of_bool (rs = er_prog prog) ^ " " ^ s_roots rs
+       | Reject -> "REJECT"
+       | Fuel -> "FUEL")
     | L (A "blocks" :: toks) -> answer (List.map (ptok_of (fun c -> c)) toks)
     | L (A "blocks2" :: L [A "rho"; k; m] :: toks) ->
       let k = int_of k and m = int_of m in
